@@ -119,6 +119,9 @@ func WalkDir(dir string) *Walk {
 		}
 		if prev, dup := w.Objects[id]; dup {
 			w.Others = append(w.Others, "duplicate:"+prev.Name+"|"+name)
+			if len(prev.Name) <= len(name) {
+				continue // the object file proper has the shorter name
+			}
 		}
 		w.Objects[id] = f
 	}
